@@ -27,10 +27,66 @@ def time_ns():
     return int(time() * 1e9)
 
 
+_real_monotonic = _time.monotonic
+_real_monotonic_ns = _time.monotonic_ns
+_real_perf = _time.perf_counter
+_real_perf_ns = _time.perf_counter_ns
+offset = 0.0      # seconds added to every monotonic-style clock (and to the wall clock of ``virtual``)
+
+
+def monotonic():
+    return _real_monotonic() + offset
+
+
+def monotonic_ns():
+    return _real_monotonic_ns() + int(offset * 1e9)
+
+
+def perf_counter():
+    return _real_perf() + offset
+
+
+def perf_counter_ns():
+    return _real_perf_ns() + int(offset * 1e9)
+
+
 def install() -> None:
     if _time.time is not time:
         _time.time = time
         _time.time_ns = time_ns
+        _time.monotonic = monotonic
+        _time.monotonic_ns = monotonic_ns
+        _time.perf_counter = perf_counter
+        _time.perf_counter_ns = perf_counter_ns
+
+
+class virtual:
+    """context manager: one virtual time line for every clock source the
+    client could consult.  The wall clock reads ``start + offset``; the
+    monotonic / perf_counter clocks (and therefore ``loop.time()``) read
+    their real value + offset.  ``advance(dt)`` moves all of them."""
+
+    def __init__(self, start=1_700_000_000.0):
+        self.start = float(start)
+
+    def now(self):
+        return self.start + offset
+
+    def advance(self, dt):
+        global offset
+        offset += float(dt)
+
+    def __enter__(self):
+        global offset
+        offset = 0.0
+        set_clock(self.now)
+        return self
+
+    def __exit__(self, *a):
+        global offset
+        offset = 0.0
+        set_clock(None)
+        return False
 
 
 def set_clock(fn) -> None:
